@@ -239,7 +239,10 @@ class Run:
             shutil.rmtree(wdir, ignore_errors=True)
         if p.returncode != 0:
             sys.stderr.write((p.stdout + p.stderr)[-4000:])
-            raise Inconclusive("driver %s exited %d" % (family, p.returncode))
+            ex = Inconclusive("driver %s exited %d" % (family, p.returncode))
+            ex.stderr = p.stderr
+            ex.trace = trace
+            raise ex
         st = json.load(open(stats)) if os.path.exists(stats) else {}
         st["family"] = name
         st["wall_s"] = round(time.time() - t, 1)
